@@ -277,6 +277,32 @@ pub fn run(tier: Tier, cli: &str) {
                         let o = Command::new(&exe).arg("c16gen").arg("file").arg(&gfile).arg(&dest).arg(p).args(&dargs).stdout(Stdio::null()).stderr(Stdio::null()).status().unwrap();
                         let got = if o.success() { std::fs::read_to_string(&dest).map(|s| normalise(&s, p)).map_err(|e| e.to_string()) } else { Err("Compile::run failed".into()) };
                         cmp(&mut st, &format!("compile-file run {run} prefix {:?}", p), got);
+                        if run == 0 {
+                            // the same call with something already at the destination: nothing, the start of the right file
+                            // (an interrupted write), a complete file of another compilation
+                            if let Ok(full) = std::fs::read(&dest) {
+                                // only cuts inside the header block: a file that starts with the complete expected header and prefix
+                                // is "already produced from the same grammar, prefix and library" by design and is left alone
+                                let text = String::from_utf8_lossy(&full).to_string();
+                                let mut hdr = 0usize;
+                                for l in text.split_inclusive('\n') {
+                                    if l.starts_with("//") {
+                                        hdr += l.len();
+                                    } else {
+                                        break;
+                                    }
+                                }
+                                let cuts = [0usize, 1, 10, 60, 100, hdr.saturating_sub(1)];
+                                let mut olds: Vec<(String, Vec<u8>)> = cuts.iter().filter(|c| **c < hdr).map(|c| (format!("first {c} bytes of the right file"), full[..*c].to_vec())).collect();
+                                olds.push(("a complete file of another compilation".into(), b"// This file was generated by something else\npub struct Other;\n".to_vec()));
+                                for (what, old) in olds {
+                                    std::fs::write(&dest, &old).unwrap();
+                                    let o = Command::new(&exe).arg("c16gen").arg("file").arg(&gfile).arg(&dest).arg(p).args(&dargs).stdout(Stdio::null()).stderr(Stdio::null()).status().unwrap();
+                                    let got = if o.success() { std::fs::read_to_string(&dest).map(|s| normalise(&s, p)).map_err(|e| e.to_string()) } else { Err("Compile::run failed".into()) };
+                                    cmp(&mut st, &format!("compile-file-over-existing ({what}) prefix {:?}", p), got);
+                                }
+                            }
+                        }
                         // Compile::directory
                         let sub = gdir.join("d/sub/g.ebnf");
                         std::fs::write(&sub, text).unwrap();
